@@ -116,6 +116,17 @@ TRender ==
      /\ LayerM => Report(l, "M:render", RenderDrift(inst, e))
      /\ inst' = [inst EXCEPT !.lastrender = <<e.text, e.lines>>]
 
+TMcheck ==
+  /\ Ev("mcheck") /\ Read
+  /\ LET e == Trace[l] IN
+     Report(l, "P:C05:marshal",
+            (IF e.pan # "" THEN {"panic"} ELSE {})
+            \cup (IF e.pan = "" /\ e.mlen # e.psize THEN {"size"} ELSE {})
+            \cup (IF e.pan = "" /\ e.twice # 1 THEN {"second-call-differs"} ELSE {})
+            \cup (IF e.pan = "" /\ e.rebuilt # 1 THEN {"second-build-differs"} ELSE {})
+            \cup (IF e.pan = "" /\ e.remarshal # 1 THEN {"remarshal-differs"} ELSE {})
+            \cup (IF e.pan = "" /\ e.protomarshal # 1 THEN {"proto.Marshal-differs"} ELSE {}))
+
 TModes ==
   /\ Ev("modes")
   /\ inst' = NoInst
@@ -128,7 +139,7 @@ TModes ==
      /\ Report(l, "P:C13:onkeys", b.onkeys)
      /\ LayerM => Report(l, "M:modes", ModesDrift(e))
 
-TNext == UNCHANGED iters /\ (TNew \/ TTable \/ TTableErr \/ TStat \/ TObsK \/ TObsQ \/ TLoad \/ TModes \/ TRender)
+TNext == UNCHANGED iters /\ (TNew \/ TTable \/ TTableErr \/ TStat \/ TObsK \/ TObsQ \/ TLoad \/ TModes \/ TRender \/ TMcheck)
 
 \* every line consumed: l - 1 = Len(Trace) in the last state
 Accepted == TLCGet("stats").diameter - 1 = Len(Trace)
